@@ -17,6 +17,13 @@ class Budget(Exception):
     pass
 
 
+def typed_opq(ty, tag, depth=0):
+    """an opaque user value of a known tuple type: the tuple structure is kept, the leaves stay opaque"""
+    if ty is not None and ty.get('k') == 'tuple' and ty.get('elems') and depth < 3:
+        return ('tuple', tuple(typed_opq(e, tag + (i,), depth + 1) for i, e in enumerate(ty['elems'])))
+    return ('opq', tag)
+
+
 def plain_data(ty, depth=0):
     """integers, bool, and tuples / Options of such: no references, no type parameters, no user types"""
     k = ty.get('k')
@@ -195,7 +202,7 @@ class Engine(Interp):
             mp.append((mid, ms.len, ms.cap, ms.holes, ms.extras, ms.hole_rng, ms.extra_rng, ms.contents,
                        ms.exempt, ms.dead, ms.owned_extras, ms.examined, ms.pending, ms.asked))
         return (fr, ob, tuple(mp), st.unwinding, tuple(sorted(st.pairs.items(), key=str)),
-                tuple(sorted(((k, g[1]) for k, g in st.ghost.items()), key=str)), st.aux)
+                tuple(sorted(((k, g[1]) for k, g in st.ghost.items()), key=str)), st.aux, st.guards)
 
     def loop_join(self, table, key, st):
         """at a loop head: returns the state to continue with, or None when subsumed"""
@@ -535,6 +542,15 @@ class Engine(Interp):
                 # a genuine branch on an integer comparison: remember which way this path went
                 a.log('cond', c[1], want)
                 b.log('cond', c[1], not want)
+                cc = c[1]
+                if len(cc) == 3 and len(st.guards) < 3 and all(
+                        isinstance(x, int) or (isinstance(x, Term) and is_persistent(x)) for x in cc[1:]) \
+                        and any(isinstance(x, Term) for x in cc[1:]):
+                    # a case split on the entry state itself (argument vs entry len, ...): the two cases are
+                    # analysed apart from here on (part of the abstract shape), so that what each of them
+                    # implies is not blurred at the next loop head
+                    a.guards = a.guards + ((cc, want),)
+                    b.guards = b.guards + ((cc, not want),)
             return (a if ok_a else None, b if ok_b else None)
         a = st.fork()
         tag = c[1] if c[0] == 'boolu' else ('?',)
@@ -652,6 +668,23 @@ class Engine(Interp):
                 byref = True
             except Unproven:
                 return None
+        if target[0] == 'oarr' and not byref and tr == 'core::iter::traits::collect::IntoIterator' and nm == 'into_iter':
+            m = self.models.get('core::array::iter::<impl core::iter::traits::collect::IntoIterator for [T; N]>::into_iter')
+            if m is not None:
+                return m(self, st, fid, t, args, dest_ty)
+        if target[0] == 'opqit' and len(target) == 5 and tr == ITER_TRAIT:
+            # a tracked iterator over an array of user data
+            if nm == 'next' and byref:
+                ity = dest_ty['args'][0] if (dest_ty and dest_ty.get('k') == 'adt' and dest_ty['args']) else None
+                return self.iter_next(st, recv[2], fid, ity)
+            m = self.models.get(ITER_TRAIT + '::' + nm)
+            if m is not None:
+                t2 = dict(t)
+                t2['callee'] = dict(callee, resolved='item')
+                return m(self, st, fid, t2, args, dest_ty)
+        if target[0] == 'opqit' and len(target) == 5 and not byref and tr == 'core::iter::traits::collect::IntoIterator' \
+                and nm == 'into_iter':
+            return [('ret', st, recv)]
         path = None
         if target[0] == 'adt':
             path = target[1]
@@ -1126,8 +1159,13 @@ class Engine(Interp):
             if a.zone.sat:
                 self.store(a, ptr, ('opqit', tg, ety, slots.plus(a, pos, 1), end))
                 a.log('next', ('opqit', tg), 'Some')
+                if getattr(self, 'track_pull', False):
+                    self.ghost_bump(a, ('pull', tg))
                 cell = ('opq', ('elem', tg, pos))
-                item = ('ref', bool(ety.get('mut')), cell) if (ety is not None and ety.get('k') == 'ref') else ('opq', ('elem', tg, pos))
+                if ety is not None and ety.get('k') == 'ref':
+                    item = ('ref', bool(ety.get('mut')), cell)
+                else:
+                    item = typed_opq(ety, ('elem', tg, pos))
                 out.append(('ret', a, some(item)))
             st.zone.add_le(end, pos)
             if st.zone.sat:
